@@ -5,7 +5,8 @@ import C31 as base
 
 ID = "C32"
 GEN = ["Colors"]
-THEOREMS = []
+THEOREMS = ["C32_grayscale", "C32_lighten_darken", "C32_refuted_lighten_clamp", "C32_saturate_range", "C32_alpha_range",
+            "C32_identities", "C32_named_laws_partial", "C32_named_undo_partial", "C32_refuted_scale_identity", "C32_refuted_hsl_undo"]
 COQ_HEADER = ("From Coq Require Import String List NArith ZArith Bool.\n"
               "From RV Require Import Run.C31 Run.C32.\nImport ListNotations.\nLocal Open Scope string_scope.")
 RUN_EXPR = "Run.C32.run"
@@ -131,6 +132,10 @@ def judge(c, io, r):
             "detail": expr_of(c)}
 
 
-LEVEL_TEXT = ""
-LEVEL_NOTE = ""
+LEVEL_TEXT = ("proof: laws that are exact in binary64 for every colour (grayscale; lighten/darken move the lightness by exactly the amount; "
+              "saturate and set_alpha clamp into [0,1]; change/adjust identity) by computation and case analysis on Flocq comparisons; cancelling "
+              "pairs through `==` by finite sweep over the named colours; model tied to the code by bit-exact correspondence of eleven derived "
+              "colours and ten `==` answers per case")
+LEVEL_NOTE = ("trusted: Coq kernel+vm_compute, Flocq binary64, harness command `color`; cancelling-pair laws are partial (swept); the statement "
+              "is false on the pinned tree in four recorded classes (unclamped lightness, exact hsl comparison, red = green > blue, out-of-range sources)")
 TECHNIQUE = "Coq proof (laws exact in binary64 for all colours; finite sweeps for cancelling pairs) + bit-exact differential correspondence"
